@@ -172,6 +172,12 @@ def _project(force, nodes, labels, opts, U, lattice, exact):
     return rec
 
 
+def shuffled(d, rng):
+    keys = list(d)
+    rng.shuffle(keys)
+    return {k: d[k] for k in keys}
+
+
 def run_instance(inst, U, lattice):
     _BASE[0] = Fraction(inst.get("base", 0))
     try:
@@ -189,6 +195,7 @@ def _run_instance(inst, U, lattice):
     # per-instance coin (the record still carries the full configuration that was asked for)
     coin = random.Random(json.dumps(inst, sort_keys=True, default=str))
     passed = {k: v for k, v in inst["opts"].items() if not (k in DOC_DEFAULTS and v == DOC_DEFAULTS[k] and coin.random() < 0.5)}
+    passed = shuffled(passed, coin)        # the insertion order of an options dict is no input either
     f = Force(passed if passed or coin.random() < 0.5 else None)
     f.nodes(list(nodes))       # (the engine may sort the list it is given in place; keep ours in label order)
     if inst.get("decoy") is not None:
@@ -265,7 +272,7 @@ def run_relayout(rng):
         else:
             base = first["minPos"] if first["minPos"] is not None else 0
             first["maxPos"] = base + rng.choice([10, 50, 100.5])     # narrow: forces several layers
-            f = Force(first)
+            f = Force(shuffled(first, rng))
             f.nodes(list(nodes))
             with guard.limit(900):
                 f.compute()
@@ -290,11 +297,11 @@ def run_relayout(rng):
                         nodes[i].idealPos = _num(a)
                     labels[i] = (a, w)
             if rng.random() < 0.5:
-                f.set_options(delta)
+                f.set_options(shuffled(delta, rng))
                 with guard.limit(900):
                     f.compute()
             else:
-                f = Force(dict(intended))
+                f = Force(shuffled(intended, rng))
                 f.nodes(list(nodes) if rng.random() < 0.5 else list(reversed(nodes)))
                 with guard.limit(900):
                     f.compute()
